@@ -1,5 +1,6 @@
 """C04 - instantiating a template equals substituting values into its text (EFF, GRD, SIB; DESIGN 5/C04)."""
 import ast
+from ..py import norm as nrm
 import copy as _copy
 
 from ..report import Inconclusive
@@ -32,6 +33,7 @@ def run(rep, tier):
     common.guarded(rep, "C08.5", c08.c08_5, rep, ix)
     from . import c15
     common.guarded(rep, "C15.2", c15.c15_2, rep, ix)       # a variable named like a parameter is still a variable
+    common.guarded(rep, "C15.1", c15.c15_1, rep, ix)       # the p-type filter drops exactly p<digits> names from the reported parameters
     c05.aliasing_lint(rep, ix)
     # the instantiated program is a deep copy (shared with C13)
     from . import c13
@@ -149,23 +151,63 @@ def c04_4(rep, ix, sites):
             if isinstance(x, ast.Attribute) and x.attr == "free_symbols":
                 subj = u(x.value)
         pv = u(par[0].targets[0])
-        norm = []
+        prep = []
         for s in ctx:
             s2 = _copy.deepcopy(s)
             if isinstance(s2, ast.Assign) and isinstance(s2.value, ast.Call) and any(k.arg is None for k in s2.value.keywords) and not isinstance(s2.targets[0], ast.Name):
                 s2.targets = [ast.Name(id="TARGET", ctx=ast.Store())]
-            s2 = Subst(subj).visit(s2)
-            norm.append(" ".join(u(s2).split()))
-        shapes.append((tuple(norm), subj, tr))
-    want = ("par = list(X.free_symbols)", "func = sym.lambdify(par, X)",
-            "try: vals = {str(p): kwargs[str(p)] for p in par} except KeyError: raise ValueError('Invalid value for free parameter provided')", "TARGET = func(**vals)")
+            prep.append(Subst(subj).visit(s2))
+        # the names bound inside the idiom are compared up to renaming
+        bound = set()
+        for s2 in prep:
+            bound |= {x.id for x in ast.walk(s2) if isinstance(x, ast.Name) and isinstance(x.ctx, ast.Store)} - {"TARGET"}
+        shapes.append((tuple(nrm.alpha(prep, bound)), subj, tr))
+    want = tuple(nrm.alpha_of_source("par = list(X.free_symbols)\nfunc = sym.lambdify(par, X)\n"
+                                     "try:\n    vals = {str(p): kwargs[str(p)] for p in par}\nexcept KeyError:\n    raise ValueError('Invalid value for free parameter provided')\n"
+                                     "TARGET = func(**vals)", {"par", "func", "vals", "p"}))
+    try_head = want[2][:want[2].index(" except")]
     canon = None
     for norm, subj, tr in shapes:
         core = tuple(x for x in norm)
-        ok = len(core) == 4 and core[0] == want[0] and core[1] == want[1] and core[2].startswith("try: vals = {str(p): kwargs[str(p)] for p in par}") and core[3] == want[3]
+        ok = len(core) == 4 and core[0] == want[0] and core[1] == want[1] and core[2].startswith(try_head) and core[3] == want[3]
         rep.check(ok, R, ix.site(f, tr), "substitution of `%s` follows the bind-by-name idiom" % subj, "got %s" % (core,), key="idiom|" + subj)
         canon = canon or core
         rep.check(core == canon, R, ix.site(f, tr), "substitution of `%s` agrees with the other sites" % subj, key="agree|" + subj)
+    # every substituted value is written into the program that is returned (not into a detached copy)
+    rets = [n for n in walk_shallow(fn) if isinstance(n, ast.Return) and isinstance(n.value, ast.Name)]
+    prog = rets[0].value.id if rets else None
+    E = common.eff(rep)
+    from ..py.index import root_name
+    from ..py.eff import FRESH
+    for norm_, subj, tr in shapes:
+        blk = None
+        for b in all_blocks(fn):
+            if tr in b:
+                blk = b
+        st = blk[blk.index(tr) + 1] if blk and blk.index(tr) + 1 < len(blk) else None
+        if not isinstance(st, ast.Assign):
+            continue
+        r = root_name(st.targets[0])
+        ok = r == prog
+        why = ""
+        if not ok and r is not None:
+            # an alias: a loop variable over, or an attribute chain of, the returned program - but not the result of a getter that returns a copy
+            binders = [n for n in ast.walk(fn) if (isinstance(n, ast.For) and any(isinstance(x, ast.Name) and x.id == r for x in ast.walk(n.target)) and root_name(n.iter if not isinstance(n.iter, ast.Call) else n.iter.func) == prog)
+                       or (isinstance(n, ast.Assign) and any(isinstance(t, ast.Name) and t.id == r for t in n.targets) and root_name(n.value) == prog)]
+            ok = bool(binders)
+            # ... or a local object that is itself stored into the returned program afterwards
+            stored = [n for n in ast.walk(fn) if isinstance(n, ast.Assign) and isinstance(n.value, ast.Name) and n.value.id == r and root_name(n.targets[0]) == prog and not isinstance(n.targets[0], ast.Name)]
+            if stored:
+                ok = True
+            for n in binders:
+                v = n.value if isinstance(n, ast.Assign) else None
+                if isinstance(v, ast.Attribute) and v.attr in E.props:
+                    ret = E.summ[E.props[v.attr].qual].ret
+                    if ret is not None and ret.self_o == frozenset([FRESH]):
+                        ok = False
+                        why = "`%s` is bound to %s.%s, a property that returns a fresh copy: the substituted value is written into a throw-away object" % (r, prog, v.attr)
+        rep.check(ok, R, ix.site(f, st), "`%s` writes the substituted value into the returned program" % " ".join(u(st).split())[:60], why or "target `%s` is not (part of) the returned program" % u(st.targets[0]),
+                  key="target|" + subj)
     subjects = sorted(s for _, s, _ in shapes)
     rep.check(len(shapes) >= 4, R, ix.site(f), "four kinds of site are substituted: positional argument, keyword argument, scalar variable, array element", "found %s" % subjects, key="four sites")
     # each site is reached for SymPy values only and writes back into the copy at the place it read from
@@ -223,18 +265,27 @@ def c04_5(rep, ix, G):
     rep.check(len(clr) == 1 and pub and clr[0].lineno > pub[0].lineno, R, ix.site(e), "the table is cleared after publishing", key="clear after")
     a = ix.func(ARRAY)
     an = a.node
-    sym = [n for n in walk_shallow(an) if isinstance(n, ast.Call) and u(n.func) in ("sym.Symbol", "Symbol") and "_{}_{}" in u(n)]
-    okn = len(sym) == 1 and " ".join(u(sym[0].args[0]).split()) == "parameters[0][1].name + '_{}_{}'.format(i, j)"
-    rep.check(okn, R, ix.site(a, sym[0]) if sym else ix.site(a), "the element symbols of a whole-array parameter are named <name>_<i>_<j> with i the row and j the column index", key="element names")
-    if sym:
+    from ..py.guards import resolved_text, stmt_of
+    sym = [n for n in ast.walk(an) if isinstance(n, ast.Call) and u(n.func) in ("sym.Symbol", "Symbol") and len(n.args) == 1]
+    okn, row, col, got = False, None, None, None
+    if len(sym) == 1:
+        # the name expression, with local aliases / templates looked through and every string-building spelling canonicalised
+        rt = resolved_text(an, sym[0].args[0], stmt_of(an, sym[0]))
+        parts = nrm.fmt_parts(ast.parse(rt, mode="eval").body) or []
+        got = nrm.canon(parts)
+        if len(parts) == 5 and [p_[0] for p_ in parts] == ["expr", "lit", "expr", "lit", "expr"] and parts[1][1] == "_" and parts[3][1] == "_" \
+                and " ".join(u(parts[0][1]).split()) == "parameters[0][1].name" and isinstance(parts[2][1], ast.Name) and isinstance(parts[4][1], ast.Name) and len(parts[2]) == 2 and len(parts[4]) == 2:
+            okn, row, col = True, parts[2][1].id, parts[4][1].id
+    rep.check(okn, R, ix.site(a, sym[0]) if sym else ix.site(a), "the element symbols of a whole-array parameter are named <name>_<i>_<j> with i the row and j the column index",
+              "name expression %s" % (got,), key="element names")
+    if okn:
         loops = [l for l in walk_shallow(an) if isinstance(l, ast.For) and any(x is sym[0] for x in ast.walk(l))]
         its = [(u(l.target), " ".join(u(l.iter).split())) for l in loops]
-        if not its:
-            # nested comprehension: outermost generator first
-            comps = [c for c in ast.walk(an) if isinstance(c, (ast.ListComp, ast.GeneratorExp)) and any(x is sym[0] for x in ast.walk(c))]
-            comps.sort(key=lambda c: -len(list(ast.walk(c))))
-            its = [(u(g.target), " ".join(u(g.iter).split())) for c in comps for g in c.generators]
-        rep.check(("i", "range(shape[0])") in its and ("j", "range(shape[1])") in its and its.index(("i", "range(shape[0])")) < its.index(("j", "range(shape[1])")), R, ix.site(a, sym[0]),
+        # comprehensions around the call: outermost first
+        comps = [c for c in ast.walk(an) if isinstance(c, (ast.ListComp, ast.GeneratorExp)) and any(x is sym[0] for x in ast.walk(c))]
+        comps.sort(key=lambda c: -len(list(ast.walk(c))))
+        its += [(u(g.target), " ".join(u(g.iter).split())) for c in comps for g in c.generators]
+        rep.check((row, "range(shape[0])") in its and (col, "range(shape[1])") in its and its.index((row, "range(shape[0])")) < its.index((col, "range(shape[1])")), R, ix.site(a, sym[0]),
                   "rows are the outer loop over shape[0], columns the inner loop over shape[1]", "loops %s" % its, key="element loops")
     ext = [n for n in walk_shallow(an) if isinstance(n, ast.Call) and u(n.func) == "_PARAMS.extend"]
     rem = [n for n in walk_shallow(an) if isinstance(n, ast.Call) and u(n.func) == "_PARAMS.remove"]
